@@ -19,6 +19,7 @@ import itertools
 import pickle
 
 from .. import runner as R
+from .. import impl
 from ..vocabkeys import object_list_keys
 
 ID = "C17"
@@ -390,7 +391,7 @@ def record(res, factory, hist, div):
 
 # ---------------------------------------------------------------- exploration
 def units(tier):
-    us = [("closure", f) for f in (True, False)] + [("closure", f, 1) for f in (True, False)]
+    us = [("closure", f) for f in (True, False)] + [("closure", f, 1) for f in (True, False)] + [("loaded",)]
     depth = 3
     ops = alphabet(True)
     # unmerged: partition by first op
@@ -409,8 +410,98 @@ def untuple(op):
     return tuple(tuple(tuple(y) if isinstance(y, list) else y for y in x) if isinstance(x, list) else x for x in op)
 
 
+LOADED_DOCS = [
+    'MAP NAME "m" CONFIG "MS_ERRORFILE" "x" WEB METADATA "WMS_Title" "t" "k2" "v" END VALIDATION "Key" "^a$" END END LAYER NAME "l" TYPE POINT '
+    'METADATA "A" "1" END VALIDATION "B" "2" END CONNECTIONOPTIONS "Opt" "3" END SCALETOKEN NAME "%p%" VALUES "0" "a" "100" "b" END END '
+    'CLASS NAME "c" STYLE COLOR 1 2 3 END LABEL SIZE 8 END END FEATURE POINTS 1 1 2 2 END POINTS 3 3 4 4 END END END '
+    'OUTPUTFORMAT NAME "png" DRIVER "AGG/PNG" FORMATOPTION "A=1" END END',
+    'METADATA "Mixed_Key" "v" "lower" "w" END', 'VALIDATION "K" "v" END', 'CONNECTIONOPTIONS "K" "v" END',
+    'LAYER NAME "l" TYPE POINT METADATA "wms_TITLE" "x" END END', 'SYMBOL NAME "s" POINTS 1 1 END END',
+]
+
+
+def every_dict(d, path="/"):
+    if isinstance(d, dict):
+        yield path, d
+        for k, v in list(d.items()):
+            if not (isinstance(k, str) and k.startswith("__") and k != "__type__"):
+                yield from every_dict(v, path + str(k) + "/")
+    elif isinstance(d, list):
+        for i, v in enumerate(d):
+            yield from every_dict(v, path + "%d/" % i)
+
+
+def run_loaded(res):
+    """every dictionary (at any depth) of what loads / open return behaves as the class the closure explored: same class, and an
+    operation battery with respelled keys against the reference model"""
+    import mappyfile
+    from mappyfile.ordereddict import CaseInsensitiveOrderedDict as CI
+
+    n = 0
+    for text in LOADED_DOCS:
+        for flags in ({}, {"include_position": True}, {"include_comments": True, "include_position": True}):
+            roots = impl.loads(text, **flags)
+            for path, _ in list(every_dict(roots)):
+                # a fresh load per nested dictionary and operation: the battery edits it
+                for opname in ("in", "get", "getitem", "pop", "setdefault", "del", "set", "update", "keys_lower", "missing_list"):
+                    top = impl.loads(text, **flags)
+                    d = dict(every_dict(top))[path]
+                    n += 1
+                    res["evals"] += 1
+                    ks = [k for k in d.keys() if isinstance(k, str) and not k.startswith("__")]
+                    ref = collections.OrderedDict((k.lower(), v) for k, v in d.items())
+                    bad = None
+                    if type(d) is not CI:
+                        bad = "is a %s, not a CaseInsensitiveOrderedDict" % type(d).__name__
+                    elif ks:
+                        k = ks[0]
+                        alt = respell(k, "upper") if respell(k, "upper") != k else respell(k, "title")
+                        try:
+                            if opname == "in":
+                                bad = None if (alt in d) else "%r in d is False" % alt
+                            elif opname == "get":
+                                bad = None if d.get(alt, "MISSING") == ref[k] else "get(%r) misses" % alt
+                            elif opname == "getitem":
+                                bad = None if d[alt] == ref[k] else "d[%r] differs" % alt
+                            elif opname == "pop":
+                                v = d.pop(alt, "MISSING")
+                                bad = None if (v == ref[k] and k not in d) else "pop(%r) -> %r" % (alt, v)
+                            elif opname == "setdefault":
+                                v = d.setdefault(alt, "NEW")
+                                bad = None if (v == ref[k] and len(d) == len(ref)) else "setdefault(%r) -> %r, %d keys (was %d)" % (alt, v, len(d), len(ref))
+                            elif opname == "del":
+                                del d[alt]
+                                bad = None if len(d) == len(ref) - 1 else "del d[%r] left %d keys" % (alt, len(d))
+                            elif opname == "set":
+                                d[alt] = "NEW"
+                                bad = None if (len(d) == len(ref) and d[k] == "NEW" and list(d.keys()) == list(ref.keys())) else "d[%r] = v gives keys %r" % (alt, list(d.keys()))
+                            elif opname == "update":
+                                d.update({alt: "NEW"})
+                                bad = None if (len(d) == len(ref) and d[k] == "NEW") else "update({%r: v}) gives keys %r" % (alt, list(d.keys()))
+                            elif opname == "keys_lower":
+                                bad = None if all(x == x.lower() for x in ks) else "keys not lower case: %r" % ks
+                        except Exception as e:
+                            bad = "%s raised %s" % (opname, type(e).__name__)
+                    if bad is None and opname == "missing_list" and type(d) is CI and d.get("__type__") in ("map", "layer", "class") and ks:
+                        key = {"map": "layers", "layer": "classes", "class": "styles"}[d["__type__"]]
+                        if key not in d:
+                            v = d[key.upper()]
+                            bad = None if (v == [] and d[key] is v) else "reading missing %s gives %r" % (key, v)
+                    if bad:
+                        R.add_outcome(res, "divergence")
+                        R.add_violation(res, "loaded|%s|%s|%s" % (opname, path, text[:40]), "a dictionary inside the result of loads does not behave as a case-insensitive ordered dict: at %s %s" % (path, bad),
+                                        {"text": text, "flags": flags, "path": path, "op": opname}, None)
+                    else:
+                        R.add_outcome(res, "agree")
+                        res["states"].add(R.h64(("loaded", text, path, opname, tuple(sorted(flags)))))
+    R.add_sub(res, "dictionaries returned by loads: every nested dictionary x operation battery with respelled keys", n)
+    return res
+
+
 def run_unit(unit):
     res = R.new_result()
+    if unit[0] == "loaded":
+        return run_loaded(res)
     if unit[0] == "closure":
         factory = unit[1]
         ops = translate(alphabet(True), unit[2] if len(unit) > 2 else 0)
@@ -473,6 +564,10 @@ def describe(tier):
 
 
 def replay(case):
+    if "path" in case:
+        res = run_loaded(R.new_result())
+        hits = [v for v in res["violations"] if v["case"].get("text") == case["text"] and v["case"].get("path") == case["path"] and v["case"].get("op") == case["op"]]
+        return {"what": hits[0]["what"]} if hits else None
     hist = [untuple(o) for o in case["history"]]
     _, _, div = replay_history(case["factory"], tuple(hist))
     if div:
